@@ -276,6 +276,7 @@ fn stats_json(st: &Stats) -> serde_json::Value {
         "cleanup_model_agree": st.cleanup_model_agree, "cleanup_model_differ": st.cleanup_model_differ,
         "enumerated_failure_masks": st.enum_masks, "enumerated_ranges": st.enum_ranges,
         "tlb_fills": st.tlb_fills, "tlb_checks": st.tlb_checks,
+        "runs_repeated_in_a_fresh_process": st.fresh_runs,
     })
 }
 
@@ -359,6 +360,18 @@ fn main() {
             let mut logf = log.map(|p| std::fs::File::create(p).unwrap());
             let mut done = 0u64;
             let mut k = start;
+            // one run in `fresh_every` is repeated in a process with pristine process-wide state
+            // (usim::driver::Zygote)
+            let fresh_every: u64 = arg(&args, "--fresh-every").and_then(|s| s.parse().ok()).unwrap_or(16);
+            let zprop = prop.clone();
+            let answer = move |seed: u64| -> String {
+                match run_isolated(&gen::gen_replay(seed, &zprop)) {
+                    Verdict::Pass => "PASS".to_string(),
+                    Verdict::Viol(v) => format!("VIOL {}", serde_json::to_string(&v).unwrap()),
+                    Verdict::Crash(m) => format!("CRASH {m}"),
+                }
+            };
+            let mut zygote = if fresh_every > 0 { Some(usim::driver::Zygote::spawn_raw(&answer)) } else { None };
             while done < count {
                 if t0.elapsed().as_secs_f64() > deadline {
                     break;
@@ -387,6 +400,23 @@ fn main() {
                         v.as_ref().map(|v| format!("{}@{}:{}", v.oracle, v.step, v.detail)).unwrap_or_default()
                     );
                 }
+                let v = match (v, zygote.as_mut()) {
+                    (None, Some(z)) if usim::prng::mix2(seed, 0xf5e5) % fresh_every == 0 => {
+                        st.fresh_runs += 1;
+                        let line = z.ask(seed);
+                        if line == "PASS" {
+                            None
+                        } else if let Some(j) = line.strip_prefix("VIOL ") {
+                            Some(serde_json::from_str::<Violation>(j).expect("violation json"))
+                        } else if let Some(m) = line.strip_prefix("CRASH ") {
+                            Some(crash_violation(m, 0))
+                        } else {
+                            eprintln!("HARNESS-ERROR: fresh-process runner answered {line:?}");
+                            std::process::exit(2);
+                        }
+                    }
+                    (v, _) => v,
+                };
                 if let Some(v) = v {
                     let mut rp = rp;
                     rp.violation = Some(v.clone());
@@ -401,6 +431,7 @@ fn main() {
                 done += 1;
                 k += stride;
             }
+            drop(zygote);
             let _ = std::fs::remove_file(&cur_path);
             let res = json!({
                 "property": prop, "base_seed": base, "start": start, "stride": stride, "runs_done": done,
